@@ -32,6 +32,17 @@ def cfg(inv=INV, **kw):
     return "\n".join(lines)
 
 
+# long user names, long runs of blanks in one kind of gap at a time (lengths around 64 and 128)
+def long_slices(quick):
+    few = "GapsLongFew"
+    return [("long_users", dict(Users="UsersLong", Cases="CasesU" if quick else "CasesAll", EGaps="GapsTight"), None, None),
+            ("long_og", dict(OGaps=few, Contexts="CtxS" if quick else "CtxSingle"), None, None),
+            ("long_kg", dict(KGaps="GapsLong", LGaps=few if quick else "GapsLong", Contexts="CtxCS" if quick else "CtxSingle"), None, None),
+            ("long_eg", dict(Contexts="CtxS", EGaps="GapsLong", Users="UsersU" if quick else "UsersSome"), None, None),
+            ("long_ag", dict(Contexts="CtxA", AGaps="GapsLong"), None, None),
+            ("long_multi", dict(Contexts="CtxMulti", S2Gaps=few), None, None)]
+
+
 def slices(quick):
     """(name, constants, simulate, depth): BFS slices vary a few dimensions exhaustively while the
     others stay at their defaults; the simulated slice mixes all dimensions at random."""
@@ -54,7 +65,8 @@ def slices(quick):
             # texts without password clause
             ("nopw", dict(Contexts="CtxNoPw", S1Gaps="GapsTight", S2Gaps="GapsSemi2"), None, None),
             ("mix", full, "num=150", 140),
-        ]
+        ] + long_slices(True)
+
     return [
         ("gaps", dict(Cases="CasesAll", KGaps="GapsAll", LGaps="GapsAll0", EGaps="GapsAll0", AGaps="GapsTight"), None, None),
         ("pw", dict(Pieces="PiecesAll", PwMax=3), None, None),
@@ -66,7 +78,8 @@ def slices(quick):
         ("multi", dict(Contexts="CtxMulti", S1Gaps="GapsTight", S2Gaps="GapsSemi2", LGaps="GapsTight"), None, None),
         ("nopw", dict(Contexts="CtxNoPw", S1Gaps="GapsTight", S2Gaps="GapsSemi2"), None, None),
         ("mix", full, "num=1100", 140),
-    ]
+    ] + long_slices(False) + [("long_all", dict(Contexts="CtxPw", Users="UsersLong", OGaps="GapsLongFew", Cases="CasesAll", S1Gaps="GapsTight"), "num=40", 140)]
+
 
 
 def run(ctx):
